@@ -302,6 +302,18 @@ CK_RV P11Attribute::retrieve(Token *token, bool isPrivate, CK_VOID_PTR pValue, C
 		}
 	}
 
+	// The kind under which the value is stored must agree with the size
+	// established above (a corrupt store can hold a fixed size attribute
+	// under another kind).
+	if ((attr.isUnsignedLongAttribute() && attrSize != sizeof(CK_ULONG)) ||
+	    (attr.isBooleanAttribute() && attrSize != sizeof(CK_BBOOL)) ||
+	    (attr.isMechanismTypeSetAttribute() && attrSize != attr.getMechanismTypeSetValue().size() * sizeof(CK_MECHANISM_TYPE)) ||
+	    (attr.isAttributeMapAttribute() && attrSize != attr.getAttributeMapValue().size() * sizeof(CK_ATTRIBUTE)))
+	{
+		ERROR_MSG("Internal error: stored attribute kind does not match its type");
+		return CKR_GENERAL_ERROR;
+	}
+
 	// [PKCS#11 v2.40, C_GetAttributeValue]
 	// 3. Otherwise, if the pValue field has the value NULL_PTR, then the
 	//    ulValueLen field is modified to hold the exact length of the
@@ -340,6 +352,7 @@ CK_RV P11Attribute::retrieve(Token *token, bool isPrivate, CK_VOID_PTR pValue, C
 					ERROR_MSG("Internal error: failed to decrypt private attribute value");
 					return CKR_GENERAL_ERROR;
 				}
+				if (value.size() != attrSize) return CKR_GENERAL_ERROR;
 				if (value.size() !=  0) {
 					const unsigned char* attrPtr = value.const_byte_str();
 					memcpy(pValue,attrPtr,attrSize);
@@ -347,6 +360,7 @@ CK_RV P11Attribute::retrieve(Token *token, bool isPrivate, CK_VOID_PTR pValue, C
 			}
 			else if (attr.getByteStringValue().size() != 0)
 			{
+				if (attr.getByteStringValue().size() != attrSize) return CKR_GENERAL_ERROR;
 				const unsigned char* attrPtr = attr.getByteStringValue().const_byte_str();
 				memcpy(pValue,attrPtr,attrSize);
 			}
